@@ -2,7 +2,7 @@
 import bisect
 import itertools
 import vlib
-from checks import apicheck
+from checks import apicheck, floattab
 from gen_api import fbits, hx
 
 
@@ -534,6 +534,10 @@ def run(ctx, proofs_ok):
     ], extra=[("exhaustive short operation sequences over 3 members x 3 scores (incl. -0)", small_sequences(2 if quick else 3), False),
               ("exhaustive rank / score windows on sets of 0..4 members", windows(), False),
               ("400-member set: several skiplist levels, rank queries, range removals", big(ctx.rng), False)])
+    if ctx.violations:
+        return
+    # score text: strconv.ParseFloat / FormatFloat('f',-1,64) against the model's decimal float text
+    floattab.run(ctx, vlib.build_harness(ctx), vlib)
     if ctx.violations:
         return
     # the command layer (argument text, option words, replies) of the same families over the network protocol
